@@ -283,7 +283,13 @@ def correspondence(comp, seed, tier, force=False):
     r["component"] = comp
     # keep files small
     r["diffs"] = r["diffs"][:50]
-    r["oracle"] = r["oracle"][:50]
+    # per oracle name (one flooding oracle must not hide another property's failures), shortest cases first
+    by = {}
+    for o in sorted(r["oracle"], key=lambda o: len(o["case"])):
+        by.setdefault(o["oracle"], [])
+        if len(by[o["oracle"]]) < 20:
+            by[o["oracle"]].append(o)
+    r["oracle"] = [o for name in sorted(by) for o in by[name]]
     with open(cpath, "w") as f:
         json.dump(r, f)
     return r
